@@ -43,7 +43,7 @@ CHECKS = {
         "unordered mode no ring mutex is touched and merging happens after join under a mutex; rings are created and locked "
         "before any thread starts; no application code reaches the shared reader or the protocol's members. These are "
         "necessary conditions of frame-exactly-once/in-order/no-deadlock; breaking any of them breaks the property for some schedule."
-        + 'Also: exactly the workers 0..nthreads_-1 are created, so the modulus of the hand-over rings equals the number of workers and ring mutexes; the frame budget counts the first frame of interest held by worker 0, so that in unordered mode the processed frames are the first K frames of interest under every schedule (a genuine defect here was repaired: fix 05eb3cbcb). ',
+        + 'Also: exactly the workers 0..nthreads_-1 are created, so the modulus of the hand-over rings equals the number of workers and ring mutexes; the frame budget counts the first frame of interest held by worker 0, so that in unordered mode the processed frames are the first K frames of interest under every schedule (a genuine defect here was repaired: fix 05eb3cbcb); in ordered mode whatever MergeWorker adds from a worker is reset between two merges of that worker (repaired in the threaded template: fix 183aadea9). ',
    note="Not decided: byte-identical output across thread counts, what a subclass' MergeWorker/EvalConfiguration computes "
         "exception paths (EH edges off), fairness. Deadlock freedom is "
         "argued from the verified token protocol, not model-checked."),
@@ -85,7 +85,7 @@ CHECKS = {
         "symbolically and must agree: same quantity and component per column/offset, box elements mapped to the same matrix "
         "entries (all nine on every path for gro, cell vectors as columns for DLPOLY), unit factors multiplying to one. "
         "Every reader's atom-count comparison must reach a real throw. Table columns/flag token, IMC matrix layout (row-major "
-        "type fact) and the index-file grammar are paired the same way; every writable extension has a reader. "
+        "type fact) and the index-file grammar are paired the same way; every writable extension has a reader; DL_POLY real fields that are separated by their width only are at least precision + 7 wide. "
         + 'Also: the Table writer prints significant digits (no fixed notation, precision >= 6), so small ordinates survive the round trip. ',
    note="Necessary structural conditions of the round trip, decided for all configurations because they are facts about the "
         "code's field tables. Not decided: printed precision versus tolerance, bead names/types, multi-frame ordering, xml "
